@@ -21,6 +21,37 @@ pub use tx3_tir::model::v1beta0::{Expression, StructExpr};
 #[cfg(test)]
 pub mod mock;
 
+/// Verification hook (off unless built with `--cfg tx3_verif`): records the
+/// iteration orders that input selection depends on, so that an external model
+/// can replay a selection deterministically.
+#[cfg(tx3_verif)]
+pub mod verif {
+    use std::cell::RefCell;
+    use tx3_tir::model::core::UtxoRef;
+
+    #[derive(Debug, Clone)]
+    pub enum Event {
+        /// refs added by `SearchSpace::take` from the union, in the order taken
+        Fill(Vec<UtxoRef>),
+        /// candidates after `sort_candidates`
+        Sorted(Vec<UtxoRef>),
+        /// iteration order of one `find_first_excess_utxo` scan
+        PruneScan(Vec<UtxoRef>),
+    }
+
+    thread_local! {
+        static TRACE: RefCell<Vec<Event>> = RefCell::new(Vec::new());
+    }
+
+    pub fn push(event: Event) {
+        TRACE.with(|t| t.borrow_mut().push(event));
+    }
+
+    pub fn take() -> Vec<Event> {
+        TRACE.with(|t| std::mem::take(&mut *t.borrow_mut()))
+    }
+}
+
 #[derive(Debug, thiserror::Error)]
 pub enum Error {
     #[error("can't compile non-constant tir")]
